@@ -6,6 +6,7 @@ virtual (time seam), so every pause is an exact, comparable number.  Oracle: ref
 """
 from __future__ import annotations
 
+import asyncio
 import json
 from typing import Any, Dict, List, Optional, Tuple
 
@@ -34,8 +35,9 @@ ASSUMPTIONS = ['all durations are dyadic rationals of small magnitude, so virtua
                'attributed to its caller (request token / task)']
 
 OUTCOME_EXC = {'exc_conn': SimConnError, 'exc_reset': SimConnReset, 'exc_timeout': SimTimeout,
-               'exc_other': SimOther, 'lost_conn': SimConnError, 'abort': SimAbort}
-NOTIF_OUTCOMES = ('ok', 'exc_conn', 'exc_reset', 'exc_timeout', 'exc_other', 'lost_conn', 'abort')
+               'exc_other': SimOther, 'lost_conn': SimConnError, 'abort': SimAbort,
+               'exc_cancelled': asyncio.CancelledError}
+NOTIF_OUTCOMES = ('ok', 'exc_conn', 'exc_reset', 'exc_timeout', 'exc_other', 'lost_conn', 'abort', 'exc_cancelled')
 
 
 def retryable(scn: Dict[str, Any], strategy: Optional[Dict[str, Any]], outcome: str) -> bool:
@@ -155,6 +157,57 @@ def judge(w: World, scn: Dict[str, Any], obs: CS.Obs, client_async: bool) -> Dic
     return {'sends': len(sends), 'pauses': got_sleeps, 'final': final}
 
 
+def judge_cancelled(w: World, scn: Dict[str, Any], obs: CS.Obs) -> Dict[str, Any]:
+    """The caller task was cancelled at a seeded virtual instant while the request was in progress.  What the retry loop
+    did up to that instant must be a prefix of the uncancelled behaviour, and the cancellation ends it: no send and no
+    pause after the cancellation, and the caller is released at the instant it was cancelled."""
+    import asyncio
+    ctx = {'kind': scn['kind'], 'via': scn['via'], 'placement': scn['placement'], 'client_async': True,
+           'cancelled': True}
+    strategy = CS.effective_strategy(scn)
+    outcomes = [s['outcome'] for s in scn['script']]
+    rscript = [retryable(scn, strategy, o) for o in outcomes]
+    exp_sends, exp_pauses = ref_retry.expected(strategy, rscript)
+    recs = obs.records
+    t_cancel = obs.cancelled_at
+    cancel_seq = next(r['seq'] for r in recs if r['kind'] == 'fault' and r.get('fault') == 'cancel')
+    sends = [r for r in recs if r['kind'] == 'wire.send']
+    ends = {r['attempt']: r for r in recs if r['kind'] in ('wire.deliver', 'wire.raise')}
+    sleeps = [r for r in recs if r['kind'] == 'sleep']
+    ret = next(r for r in recs if r['kind'] == 'caller.return')
+    w.nontrivial = True
+    w.probe('cancelled.after_%d_sends' % min(len(sends), 4))
+    late = [r for r in sends + sleeps if r['seq'] > cancel_seq]
+    if late:
+        w.violate('C09.cancel', f'after the caller was cancelled at t={t_cancel} the retry loop still did '
+                  f'{[(r["kind"], r.get("delay")) for r in late]}', **ctx)
+        return {'cancelled': True}
+    if len(sends) > exp_sends:
+        w.violate('C09.bound', f'{len(sends)} sends before the cancellation, the uncancelled request makes {exp_sends}', **ctx)
+        return {'cancelled': True}
+    got_sleeps = [r['delay'] for r in sleeps]
+    jitter_seq = bool(strategy and strategy['backoff'].get('jitter_seq'))
+    if not jitter_seq and got_sleeps != exp_pauses[:len(got_sleeps)]:
+        w.violate('C09.pause', f'sleep arguments {got_sleeps} before the cancellation, expected a prefix of {exp_pauses}',
+                  **ctx)
+    elif not jitter_seq:
+        for k in range(len(sends) - 1):
+            end = ends.get(k)
+            if end is not None and sends[k + 1]['vt'] - end['vt'] != max(0.0, exp_pauses[k]):
+                w.violate('C09.pause', f'attempt {k + 1} started {sends[k + 1]["vt"] - end["vt"]} s after attempt {k} ended, '
+                          f'expected {exp_pauses[k]}', **ctx)
+    o = obs.outcome
+    if o[0] != 'raise' or not isinstance(o[1], asyncio.CancelledError):
+        # legal only if the request had already completed at that very instant
+        last = ends.get(exp_sends - 1)
+        if len(sends) != exp_sends or last is None or last['vt'] != t_cancel:
+            w.violate('C09.cancel', f'the caller was cancelled at t={t_cancel} during the request but received {o[0]} '
+                      f'{o[1]!r}', **ctx)
+    elif ret['vt'] != t_cancel:
+        w.violate('C09.cancel', f'the caller was cancelled at t={t_cancel} but released only at t={ret["vt"]}', **ctx)
+    return {'cancelled': True, 'sends': len(sends), 'pauses': got_sleeps}
+
+
 def _check_final(w: World, scn: Dict[str, Any], obs: CS.Obs, final: str, last: Optional[Dict[str, Any]],
                  ctx: Dict[str, Any]) -> None:
     o = obs.outcome
@@ -220,17 +273,43 @@ def _check_final(w: World, scn: Dict[str, Any], obs: CS.Obs, final: str, last: O
         w.violate('C09.outcome', f'call returned {o[1]!r}, the last reply carries {want!r}', **ctx)
 
 
+def _targeted_cancel(w: World, scn: Dict[str, Any]) -> float:
+    """A cancellation instant placed inside the request's own timeline: in the middle / at the end of an attempt or in
+    the middle / at the end of a pause (a uniformly random instant mostly lands in the first attempt or after the end)."""
+    strategy = CS.effective_strategy(scn)
+    outcomes = [s['outcome'] for s in scn['script']]
+    exp_sends, exp_pauses = ref_retry.expected(strategy, [retryable(scn, strategy, o) for o in outcomes])
+    t, cands = 0.0, []
+    for k in range(exp_sends):
+        step = scn['script'][k] if k < len(scn['script']) else {'pre': 0.0, 'post': 0.0, 'outcome': 'ok'}
+        before = step['outcome'] in ('exc_conn', 'exc_reset', 'exc_timeout', 'exc_other', 'abort', 'exc_cancelled')
+        dur = step['pre'] + (0.0 if before else step['post'])
+        cands += [t + dur / 2, t + dur]
+        t += dur
+        if k < len(exp_pauses):
+            cands += [t + max(0.0, exp_pauses[k]) / 2, t + max(0.0, exp_pauses[k])]
+            t += max(0.0, exp_pauses[k])
+    # later instants first: they are the ones a blind draw rarely reaches
+    cands = sorted(set(cands), reverse=True)
+    return cands[w.ch.draw(len(cands), 'cancel.target')]
+
+
 def _family(client_async: bool):
     def fam(w: World) -> None:
-        scn = CS.draw_scenario(w.ch, cancel=False, max_tracers=1)
+        scn = CS.draw_scenario(w.ch, cancel=client_async, max_tracers=1)
         normalise_script(scn)
+        if scn['cancel_at'] is not None and w.ch.flag(2, 3, 'cancel.targeted'):
+            scn['cancel_at'] = _targeted_cancel(w, scn)
         w.scenario = dict(scn, client_async=client_async)
         for key in ('client_strategy', 'request_strategy'):
             if isinstance(scn[key], dict):
                 for kind in ('codes', 'exceptions'):
                     w.faults_cfg[f'strategy.{kind}.{"none" if scn[key][kind] is None else len(scn[key][kind])}'] += 1
         obs = CS.run_scenario(w, scn, client_async)
-        judge(w, scn, obs, client_async)
+        if obs.cancelled_at is not None:
+            judge_cancelled(w, scn, obs)
+        else:
+            judge(w, scn, obs, client_async)
     return fam
 
 
@@ -342,8 +421,9 @@ def fam_concurrent_async(w: World) -> None:
             obs.outcome = ('value', value)
             w.rec('client', 'caller.return', outcome='value', caller=k)
         except BaseException as e:  # noqa: BLE001
-            if isinstance(e, (KeyboardInterrupt, SystemExit, asyncio.CancelledError)):
+            if isinstance(e, (KeyboardInterrupt, SystemExit)):
                 raise
+            # nobody cancels a caller in this family: a CancelledError here is the one the transport raised
             obs.outcome = ('raise', e)
             w.rec('client', 'caller.return', outcome='raise', exc=type(e).__name__, oid=w.ordinal(e), caller=k)
 
